@@ -413,6 +413,38 @@ class FnSplicer:
             self.desugared.append({'rule': 'R10', 'loop': n, 'before': ' '.join(before.split()),
                                    'after': f'{{ let mut __s: usize = 0; let mut __fin: bool = false; loop {{ if __fin {{ break; }} let mut __e: usize = __s; loop {{ if __e >= {E}.len() {{ break; }} let {C} = &{E}[__e]; if {PRED} {{ break; }} __e += 1; }} {adv} .. }} }}'})
             return
+        if d == 'R17':
+            # let mut IT = E.iter().peekable();
+            # while let (Some(A), B) = (IT.next(), IT.peek()) { BODY }          (E a plain identifier naming a slice)   =>
+            # { let mut __p: usize = 0; loop { if __p >= E.len() { break; } let A = &E[__p]; __p += 1;
+            #     let __nx = if __p < E.len() { &E[__p] } else { A }; let B = if __p < E.len() { Some(&__nx) } else { None }; BODY } }
+            # -- Peekable over slice::Iter: next() yields the elements in order, peek() right after it looks at the following element
+            # (a `&&T`) without consuming it, None at the end. BODY is left untouched. IT must not be used anywhere else.
+            kw = rf.ct(kwci)
+            hdr = [rf.ct(x).text for x in range(kwci, obrace)]
+            if len(hdr) != 24 or hdr[:5] != ['while', 'let', '(', 'Some', '('] or hdr[6:8] != [')', ','] or hdr[9:12] != [')', '=', '('] \
+                    or hdr[13:18] != ['.', 'next', '(', ')', ','] or hdr[19:] != ['.', 'peek', '(', ')', ')'] or hdr[12] != hdr[18]:
+                raise ExtractError(f'{self._where()}: R17 needs `while let (Some(a), b) = (it.next(), it.peek())`')
+            A, B, IT = hdr[5], hdr[8], hdr[12]
+            # the statement that creates the iterator, immediately before the loop
+            pre = [rf.ct(x).text for x in range(kwci - 14, kwci)]
+            if len(pre) != 14 or pre[:3] != ['let', 'mut', IT] or pre[3] != '=' or rf.ct(kwci - 10).kind != 'ident' or pre[5:] != ['.', 'iter', '(', ')', '.', 'peekable', '(', ')', ';']:
+                raise ExtractError(f'{self._where()}: R17 needs `let mut {IT} = e.iter().peekable();` right before the loop')
+            E = pre[4]
+            for x in range(self.it.body[0] + 1, self.it.body[1]):
+                if rf.ct(x).kind == 'ident' and rf.ct(x).text == IT and not (kwci - 14 <= x < obrace):
+                    raise ExtractError(f'{self._where()}: R17: `{IT}` is used outside the loop header')
+            ls2 = dict(ls); ls2['invariant'] = [f'__p <= {E}@.len()'] + list(ls.get('invariant', []))
+            ls2['ensures'] = [f'__p >= {E}@.len()'] + list(ls.get('ensures', []))
+            ls2['decreases'] = f'{E}@.len() - __p'
+            clauses = self._clauses(ls2)
+            before = rf.spaced(kwci - 14, obrace + 1)
+            new_head = (f'{{ let mut __p: usize = 0; loop\n{clauses}{{ if __p >= {E}.len() {{ break; }} let {A} = &{E}[__p]; __p += 1; '
+                        f'let __nx = if __p < {E}.len() {{ &{E}[__p] }} else {{ {A} }}; let {B} = if __p < {E}.len() {{ Some(&__nx) }} else {{ None }};')
+            self.ed.replace(rf.ct(kwci - 14).start, rf.ct(obrace).end, new_head)
+            self.ed.insert(rf.ct(cbrace).end, ' }', 1)
+            self.desugared.append({'rule': 'R17', 'loop': n, 'before': ' '.join(before.split()), 'after': ' '.join(new_head.replace(clauses, '').split()) + ' .. } }'})
+            return
         if d:
             raise ExtractError(f'unknown desugaring {d}')
         if ls.get('iter_name'):
